@@ -407,9 +407,12 @@ def exec_case(case, cfg):
         return out
     d, ctx = ops[f]["d"], ops[f]["ctx"]
     key = json.dumps([d, ctx], sort_keys=True)
-    if key not in _REFS:  # the focus operation stays the same while a case is shrunk
+    if case.get("_refs"):  # shrink candidates: the focus operation stays the same, the driver passes its references along
+        _REFS[key] = tuple(case["_refs"])
+    if key not in _REFS:
         _REFS[key] = (zygote.fresh_reference(d, ctx, uuid_seed=1, noise=0), zygote.fresh_reference(d, ctx, uuid_seed=987654321, noise=4242))
     r1, r2 = _REFS[key]
+    out["refs"] = [r1, r2]
     if not outcome.same(r1, r2, exact=_exact(d)):
         out["stats"]["reference_unstable"] = 1
         return out
@@ -455,6 +458,56 @@ def shrink_case(case, klass, cfg):
     keep = shrink.ddmin(prefix, lambda sub: fails(build(sub)), budget=120)
     c = build(keep)
     return c if fails(c) else case
+
+
+def shrink_in_fresh_workers(case, first, cfg, budget=36):
+    """C06 is about hidden process state, so a shrink candidate is only meaningful in a process that has
+    seen nothing but the candidate: every candidate is executed in its own fresh worker (DESIGN §2.8)."""
+    from sim import driver
+
+    klass = first["klass"]
+    refs = first.get("refs")
+    n = [0]
+
+    def fails(c):
+        n[0] += 1
+        cand = dict(c)
+        if refs and c.get("klass_kind") != "invariant":
+            cand["_refs"] = refs
+        try:
+            out = driver.one_shot(MODULE, c.get("env", {}), cfg, {"cmd": "exec", "case": cand}, timeout=600)
+        except driver.HarnessError:
+            return False
+        r = out[0] if out else {}
+        return r.get("verdict") == "violation" and r.get("klass") == klass
+
+    f = case["focus"]
+    ops = case["ops"]
+
+    def build(keep):
+        keep = list(keep) + [f]
+        return dict(case, ops=[ops[k] for k in keep], focus=len(keep) - 1)
+
+    if case.get("klass_kind") == "invariant":
+        keep = shrink.ddmin(list(range(f)), lambda sub: fails(build(sub)), budget=budget)
+        c = build(keep)
+        return c if fails(c) else case
+    # most likely culprits first: an earlier alias sibling (or the identical call) alone
+    tried = 0
+    seen_k = set()
+    for k in reversed(range(f)):
+        o = ops[k]
+        if o.get("g") is not None and o.get("g") == ops[f].get("g") and o.get("k") not in seen_k and not o.get("fault"):
+            seen_k.add(o.get("k"))
+            tried += 1
+            c = build([k])
+            if fails(c):
+                return c
+            if tried >= 3:
+                break
+    keep = shrink.ddmin(list(range(f)), lambda sub: fails(build(sub)), budget=budget)
+    c = build(keep)
+    return c if len(keep) < f and fails(c) else case
 
 
 # ------------------------------------------------------------------------------------------------
@@ -582,8 +635,9 @@ def main(tier):
         confirmed += 1
         if first["klass"] in reported:
             continue
+        case = shrink_in_fresh_workers(case, first, cfg)
         res = dict(first, case=case, i=c["i"])
-        path, ok, final = campaign.report_violation(MODULE, ID, res, cfg)
+        path, ok, final = campaign.report_violation(MODULE, ID, res, cfg, shrink=False)
         reported[first["klass"]] = path
         n_viol += 1
         if ok:
